@@ -230,7 +230,10 @@ def handleSeq (body opts : String) : String :=
       match s.splitOn "~" with | ["s", j, _, _] => j.toNat? | _ => none
     let out := seqStrings p structHelpers (SeqState.init p items) items
     -- as many answers as `runSeq` has observations
-    if out.length != (runSeq p items).length then "model-internal-mismatch"
+    -- the walk that carries the instantiation registry from call to call shows the same (Thm.C16.registry_is_transparent)
+    let ids := (allDeclared items).map (·.id)
+    if ids.eraseDups.length == ids.length && runSeqR p items != runSeq p items then "model-internal-mismatch"
+    else if out.length != (runSeq p items).length then "model-internal-mismatch"
     else match out.find? (·.startsWith "unsupported") with
       | some u => u
       | none => " | ".intercalate out
